@@ -250,3 +250,72 @@ package moss
 //@   loop 1: invariant forall h int :: 0 <= h && h < sindex.numKeys ==> idxRank(sindex, h) == keyRank(a, h * sindex.hop)
 //@   loop 1: invariant sindex.numKeys > 0 ==> (sindex.numKeys - 1) * sindex.hop < segLen(a)
 //@   loop 1: lemma mulsucc(sindex.numKeys, sindex.hop)
+
+//@ func (a *segment) mutate(operation uint64, key, val []byte) error
+//@   props C19
+//@   requires a != nil && len(a.kvs) % 2 == 0 && arr(key) != arr(a.buf) && arr(val) != arr(a.buf)
+//@   modifies a.buf, elems(a.buf), a.kvs, elems(a.kvs), a.totOperationSet, a.totOperationDel, a.totOperationMerge, a.totKeyByte, a.totValByte
+//@   ensures @keyTooLarge len(key) > maxKeyLength ==> result == ErrKeyTooLarge && a.kvs == old(a.kvs)
+//@   ensures @valTooLarge len(key) <= maxKeyLength && len(val) > maxValLength ==> result == ErrValueTooLarge && a.kvs == old(a.kvs)
+//@   ensures @accepted len(key) <= maxKeyLength && len(val) <= maxValLength ==> result == nil
+//@   ensures @grows result == nil ==> len(a.kvs) == old(len(a.kvs)) + 2
+//@   ensures @entry result == nil ==> klen(a, old(segLen(a))) == len(key) && vlen(a, old(segLen(a))) == len(val) && kop(a, old(segLen(a))) == opOf(operation)
+//@   ensures @inbuf result == nil ==> 0 <= kstart(a, old(segLen(a))) && kstart(a, old(segLen(a))) + len(key) + len(val) <= len(a.buf)
+//@   ensures @keybytes result == nil ==> rank(keyAt(a, old(segLen(a)))) == rank(key)
+//@   ensures @valbytes result == nil ==> rank(valAt(a, old(segLen(a)))) == rank(val)
+//@   ensures @earlier result == nil ==> (forall i int :: 0 <= i && i < old(segLen(a)) ==>
+//@       kstart(a, i) == old(kstart(a, i)) && klen(a, i) == old(klen(a, i)) && vlen(a, i) == old(vlen(a, i)) && kop(a, i) == old(kop(a, i)))
+
+//@ func (a *segment) Alloc(numBytes int) ([]byte, error)
+//@   props C19
+//@   requires a != nil && numBytes >= 0
+//@   modifies a.buf
+//@   ensures @tooLarge numBytes > old(cap(a.buf) - len(a.buf)) ==> r1 == ErrAllocTooLarge && r0 == nil && a.buf == old(a.buf)
+//@   ensures @ok numBytes <= old(cap(a.buf) - len(a.buf)) ==> r1 == nil && r0 == old(a.buf[len(a.buf) : len(a.buf) + numBytes])
+//@   ensures @grown numBytes <= old(cap(a.buf) - len(a.buf)) ==> len(a.buf) == old(len(a.buf)) + numBytes &&
+//@       arr(a.buf) == old(arr(a.buf)) && off(a.buf) == old(off(a.buf)) && cap(a.buf) == old(cap(a.buf))
+
+// A slice handed out by Alloc of this batch whose buffer has not been reallocated since.
+//@ pure func fromAlloc(a *segment, s []byte) bool = arr(s) == arr(a.buf) && off(s) >= off(a.buf) &&
+//@     cap(s) == cap(a.buf) - (off(s) - off(a.buf)) && off(s) - off(a.buf) + len(s) <= len(a.buf)
+
+//@ func (a *segment) AllocSet(keyFromAlloc, valFromAlloc []byte) error
+//@   props C19
+//@   requires a != nil && len(a.kvs) % 2 == 0 && fromAlloc(a, keyFromAlloc) && fromAlloc(a, valFromAlloc) && off(valFromAlloc) == off(keyFromAlloc) + len(keyFromAlloc)
+//@   modifies a.kvs, elems(a.kvs), a.totOperationSet, a.totOperationDel, a.totOperationMerge, a.totKeyByte, a.totValByte
+//@   ensures @limits (len(keyFromAlloc) > maxKeyLength ==> result == ErrKeyTooLarge) && (len(keyFromAlloc) <= maxKeyLength && len(valFromAlloc) > maxValLength ==> result == ErrValueTooLarge)
+//@   ensures @accepted len(keyFromAlloc) <= maxKeyLength && len(valFromAlloc) <= maxValLength ==> result == nil
+//@   ensures @entry result == nil ==> kop(a, old(segLen(a))) == OperationSet && klen(a, old(segLen(a))) == len(keyFromAlloc) && vlen(a, old(segLen(a))) == len(valFromAlloc)
+//@   ensures @bytes result == nil && (len(keyFromAlloc) > 0 || len(valFromAlloc) > 0) ==> off(a.buf) + kstart(a, old(segLen(a))) == off(keyFromAlloc)
+
+//@ func (a *segment) AllocDel(keyFromAlloc []byte) error
+//@   props C19
+//@   requires a != nil && len(a.kvs) % 2 == 0 && fromAlloc(a, keyFromAlloc)
+//@   modifies a.kvs, elems(a.kvs), a.totOperationSet, a.totOperationDel, a.totOperationMerge, a.totKeyByte, a.totValByte
+//@   ensures @accepted len(keyFromAlloc) <= maxKeyLength ==> result == nil
+//@   ensures @entry result == nil ==> kop(a, old(segLen(a))) == OperationDel && klen(a, old(segLen(a))) == len(keyFromAlloc) && vlen(a, old(segLen(a))) == 0
+//@   ensures @bytes result == nil && len(keyFromAlloc) > 0 ==> off(a.buf) + kstart(a, old(segLen(a))) == off(keyFromAlloc)
+
+//@ func (a *segment) AllocMerge(keyFromAlloc, valFromAlloc []byte) error
+//@   props C19
+//@   requires a != nil && len(a.kvs) % 2 == 0 && fromAlloc(a, keyFromAlloc) && fromAlloc(a, valFromAlloc) && off(valFromAlloc) == off(keyFromAlloc) + len(keyFromAlloc)
+//@   modifies a.kvs, elems(a.kvs), a.totOperationSet, a.totOperationDel, a.totOperationMerge, a.totKeyByte, a.totValByte
+//@   ensures @accepted len(keyFromAlloc) <= maxKeyLength && len(valFromAlloc) <= maxValLength ==> result == nil
+//@   ensures @entry result == nil ==> kop(a, old(segLen(a))) == OperationMerge && klen(a, old(segLen(a))) == len(keyFromAlloc) && vlen(a, old(segLen(a))) == len(valFromAlloc)
+//@   ensures @bytes result == nil && (len(keyFromAlloc) > 0 || len(valFromAlloc) > 0) ==> off(a.buf) + kstart(a, old(segLen(a))) == off(keyFromAlloc)
+
+// ---- sorting a batch (C19, C01) -------------------------------------------------------------
+
+//@ func (a *segment) Less(i, j int) bool
+//@   props C19 C01
+//@   requires segValid(a) && 0 <= i && i < segLen(a) && 0 <= j && j < segLen(a)
+//@   ensures @order result <==> keyRank(a, i) < keyRank(a, j)
+
+//@ func (a *segment) Swap(i, j int)
+//@   props C19 C01
+//@   requires a != nil && len(a.kvs) % 2 == 0 && 0 <= i && i < segLen(a) && 0 <= j && j < segLen(a)
+//@   modifies elems(a.kvs)
+//@   ensures @swapped kstart(a, i) == old(kstart(a, j)) && klen(a, i) == old(klen(a, j)) && vlen(a, i) == old(vlen(a, j)) && kop(a, i) == old(kop(a, j)) &&
+//@       kstart(a, j) == old(kstart(a, i)) && klen(a, j) == old(klen(a, i)) && vlen(a, j) == old(vlen(a, i)) && kop(a, j) == old(kop(a, i))
+//@   ensures @others forall p int :: 0 <= p && p < segLen(a) && p != i && p != j ==>
+//@       kstart(a, p) == old(kstart(a, p)) && klen(a, p) == old(klen(a, p)) && vlen(a, p) == old(vlen(a, p)) && kop(a, p) == old(kop(a, p))
